@@ -193,6 +193,19 @@ def run(ctx, rep):
                     rep.violate(f"observations {diff} differ from those of a freshly constructed equation", "C18:differs-from-fresh", case)
                     ok = False
                     break
+                # independent of any equation object: the number of parameters is the number of constant rows the expression uses
+                # (counted here from the command array), and after a read exactly that many constants are stored
+                cmd_now = np.asarray(ag.command_array).tolist()
+                if not use_simp:
+                    n_expected = sum(1 for u, r_ in zip(G.utilized(cmd_now), cmd_now) if u and r_[0] == G.CONSTANT)
+                else:
+                    probe.get_complexity()
+                    n_expected = sum(1 for r_ in np.asarray(probe._simplified_command_array).tolist() if r_[0] == G.CONSTANT)
+                if o1["nparams"] != n_expected or len(o1["constants"]) != n_expected:
+                    rep.violate(f"the equation reports {o1['nparams']} parameters and stores {len(o1['constants'])} constants after a read, but its "
+                                f"expression uses {n_expected} constant rows", "C18:parameter-count", case)
+                    ok = False
+                    break
                 if ag._modified:
                     # the cache is stale right now: EVERY read entry point must refresh it when it comes first
                     f1, f2 = first_reads(ag, x), first_reads(fresh_like(ag), x)
